@@ -76,7 +76,6 @@ def precesion(date):  # pragma: no cover
     return rot3(zeta) @ rot2(-theta) @ rot3(z)
 
 
-@memoize
 def _nutation(date, eop_correction=True, terms=106):
     """Model 1980 of nutation as described in Vallado p. 224
 
@@ -97,7 +96,21 @@ def _nutation(date, eop_correction=True, terms=106):
         by Vallado.
     """
 
+    # Only the series is cached, under what it depends on (the TT instant and the
+    # number of terms): the text of the date shows neither TAI-UTC nor the EOP corrections
     ttt = date.change_scale("TT").julian_century
+    epsilon_bar, delta_psi, delta_eps = _nutation_series(ttt, terms)
+
+    if eop_correction:
+        delta_eps += date.eop.deps / 3600000.0
+        delta_psi += date.eop.dpsi / 3600000.0
+
+    return epsilon_bar, delta_psi, delta_eps
+
+
+@memoize
+def _nutation_series(ttt, terms):
+    """Mean obliquity and 1980 nutation series, in degrees, for a TT julian century"""
 
     r = 360.0
 
@@ -157,10 +170,6 @@ def _nutation(date, eop_correction=True, terms=106):
 
         delta_psi += (A + B * ttt) * sin(radians(a_p)) / 36000000.0
         delta_eps += (C + D * ttt) * cos(radians(a_p)) / 36000000.0
-
-    if eop_correction:
-        delta_eps += date.eop.deps / 3600000.0
-        delta_psi += date.eop.dpsi / 3600000.0
 
     return epsilon_bar, delta_psi, delta_eps
 
